@@ -531,7 +531,7 @@ def load_known():
 
 def report(ctx, replay, key, found_input, text, site=None):
     for k in load_known():
-        if k.get('property') == ctx.prop and k.get('status') == 'known' and \
+        if ctx.prop in [k.get('property')] + list(k.get('also', [])) and k.get('status') == 'known' and \
                 (k.get('key') == key or (site and k.get('site') == site)):
             line = 'KNOWN-FINDING: property=%s %s' % (ctx.prop, k.get('what', text))
             if line not in ctx.known:
@@ -597,8 +597,11 @@ def stage_b_stream(ctx, stream, stage_a_broken):
         ofail = oracle_failures(stream, ops, impl) if r['status'] in ('ok', 'diff') else []
         if r['status'] == 'ok' and not ofail:
             continue
+        nviol = len(ctx.violations)
         handle_failure(ctx, stream, np, ops, r, ofail, label)
-        break  # one failure per stream is enough
+        if len(ctx.violations) == nviol:
+            continue  # reported as a known finding only: the remaining batches / rank counts are still checked
+        break  # one violation per stream is enough
     cov['distinct_nontrivial'] = len(distinct)
     ctx.cov['evaluations'] += cov['evaluations']
     ctx.cov['distinct_nontrivial'] += cov['distinct_nontrivial']
